@@ -30,8 +30,8 @@ ASSUMPTIONS = [
 ]
 RULE = ("address lists of 1-4 entries over two families with per-address synchronous-failure flags, with/without connect "
         "timeout; schedules of up to 7 events: batches of 1-2 completions (success/failure of the k-th in-flight "
-        "attempt), happy-eyeballs timer, connect timer; quick: random + all schedules of length <=2 for the 30 "
-        "fully asynchronous configurations; thorough: + all schedules of length <=3. non-trivial = >=2 streams opened and "
+        "attempt), happy-eyeballs timer, connect timer; quick: random + all schedules of length <=2 for the 15 "
+        "fully asynchronous address lists x connect-timeout on/off; thorough: + all schedules of length <=3. non-trivial = >=2 streams opened and "
         "the future completed")
 EXHAUSTIVE = {"quick": False, "thorough": False}
 CLAUSES = {
